@@ -18,6 +18,8 @@ func (c RCallGraph) Analysis(funcName string, clzs []core_domain.CodeDataStruct,
 
 	writeCallback(methodCallMap)
 
+	loopCount = 0
+	lastChild = ""
 	chain := c.BuildRCallChain(funcName, methodCallMap)
 	dotContent := ToGraphviz(chain)
 	return dotContent
